@@ -59,6 +59,19 @@ func replaySessions(c *runCfg) error {
 		}
 		cs := caseFrom(n)
 		m := n.field("multi")
+		if f := n.field("serverclosed"); f != nil && m == nil {
+			// the server had been closed before the connection was served
+			reg := &registry{recs: map[string]*recorder{}}
+			conn, rec := newSession(cs, reg)
+			srv, err := buildServer(&cs.cfg, reg)
+			if err != nil {
+				return err
+			}
+			srv.Close()
+			o := driveSession(cs, conn, rec, srv)
+			c.out.line("(sess " + cs.id + " " + cs.class + " " + cs.sxHead() + " (serverclosed 1) " + o.sx(isSSLRequest(cs.raw)) + ")")
+			continue
+		}
 		if m == nil {
 			emitSession(c, cs)
 			continue
